@@ -10,12 +10,15 @@ CLUSTER = 'B'
 GEN_UNITS = ['Consts']
 RULE = ('2-4 structures derived from a common parent (3-10 residues x 1-4 atoms, keys name/resName/resSeq/chainID unique) by '
         'independent deletions of atoms, coordinate / temperature / serial changes and record permutations; x every non-empty subset '
-        'of the match attributes {name, resname, resSeq, chainID} (+ element, serial) -- those that keep keys unique within every '
-        'structure are compared with the property (Spec.intersection), the others with the model only; x requested attribute lists '
-        '("*", single attributes, lists with own values such as x,y,z / serial). get_intersection() and intersect() (the tables of the '
-        'new database) are observed. Outputs are compared as SORTED lists of aligned tuples (one row per structure): SQL row order '
-        'without ORDER BY is unspecified and never relied upon. Non-trivial: the intersection is a proper non-empty subset of some '
-        'structure and at least one structure was permuted.')
+        'independent POINT MUTATIONS (a whole residue renamed in one structure); x every non-empty subset of the match attributes '
+        '{name, resname, resSeq, chainID} (+ element, serial, and keys with a coordinate / temperature: x, y, temp) -- those that keep '
+        'keys unique within every structure are compared with the property (Spec.intersection), the others with the model only; EACH '
+        'subset goes through get_intersection(column, match) AND through intersect(match) (every table of the new database read back); '
+        'x requested attribute lists ("*", single attributes, lists with own values such as x,y,z / serial). Outputs are compared as '
+        'SORTED lists of aligned tuples (one row per structure): SQL row order without ORDER BY is unspecified and never relied upon. '
+        'Point mutants and moved atoms make keys without resName / with a coordinate select a different atom set than the default key, '
+        'so intersect(match=...) is distinguished from intersect(). Non-trivial: the intersection is a proper non-empty subset of some '
+        'structure.')
 ASSUMPTIONS = ['SQLite INNER JOIN ... ON = nested-loop join filtered by the ON clause (order unspecified)']
 TRUSTED = []
 
@@ -46,6 +49,14 @@ def child(rng, prows):
             r[7] += rng.randrange(-8, 9) / 8
             r[8] += rng.randrange(-8, 9) / 8
             r[11] = rng.randrange(0, 40) / 4
+    if rng.random() < 0.6:
+        # point mutation: one whole residue gets another residue name (its atoms keep name / number / chain)
+        res = rng.choice(sorted({(r[5], r[4]) for r in rows}))
+        old = next(r[3] for r in rows if (r[5], r[4]) == res)
+        new = rng.choice([x for x in RESN if x != old])
+        for r in rows:
+            if (r[5], r[4]) == res:
+                r[3] = new
     mode = rng.random()
     if mode < 0.4:
         rng.shuffle(rows)
@@ -70,9 +81,10 @@ def cases(ctx):
     rng = ctx.rng
     out = []
     subsets = [list(s) for r in range(1, 5) for s in itertools.combinations(MATCHABLE, r)]
-    extra_matches = [['name', 'resname', 'resSeq', 'chainID', 'element'], ['serial'], ['name', 'resSeq', 'chainID'], ['resSeq', 'name']]
+    extra_matches = [['name', 'resname', 'resSeq', 'chainID', 'element'], ['serial'], ['resSeq', 'name'],
+                     ['name', 'resSeq', 'chainID', 'x'], ['name', 'resname', 'resSeq', 'chainID', 'x', 'y'], ['name', 'resSeq', 'chainID', 'temp']]
     columns = ['*', 'x,y,z', 'serial', 'name,resSeq,chainID', 'serial,x', 'temp,name', 'chainID']
-    for f in range(ctx.scale(40, 400)):
+    for f in range(ctx.scale(30, 300)):
         p = parent(rng)
         ns = rng.choice([2, 2, 3, 4])
         tables = [child(rng, p) for _ in range(ns)]
@@ -80,13 +92,18 @@ def cases(ctx):
             tables[rng.randrange(ns)] = [list(r) for r in p]           # one structure complete
         names = ['ATOM'] + ['ATOM%d' % i for i in range(1, ns)]
         dbj = db_json(list(zip(names, tables)))
+        # every match-key subset through BOTH get_intersection() and intersect(match=...)
         for m in subsets + extra_matches:
-            if rng.random() < ctx.scale(0.45, 1.0):
+            uniq = unique_keys(tables, m)
+            tag = 'unique-keys' if uniq else 'non-unique-keys(model only)'
+            if rng.random() < ctx.scale(0.4, 1.0):
                 col = columns[(len(out)) % len(columns)]
-                uniq = unique_keys(tables, m)
-                out.append({'op': 'intersection', 'fid': f, 'db': dbj, 'column': col, 'match': m, 'family': 'unique-keys' if uniq else 'non-unique-keys(model only)',
+                out.append({'op': 'intersection', 'fid': f, 'db': dbj, 'column': col, 'match': m, 'family': 'get_intersection:' + tag,
                             'unique': uniq, 'how': 'get_intersection'})
-        out.append({'op': 'intersection', 'fid': f, 'db': dbj, 'column': '*', 'match': MATCHABLE, 'family': 'intersect()', 'unique': True, 'how': 'intersect'})
+            if (uniq and rng.random() < ctx.scale(0.6, 1.0)) or rng.random() < ctx.scale(0.1, 0.5):
+                out.append({'op': 'intersection', 'fid': f, 'db': dbj, 'column': '*', 'match': m, 'family': 'intersect(match):' + tag,
+                            'unique': uniq, 'how': 'intersect'})
+        out.append({'op': 'intersection', 'fid': f, 'db': dbj, 'column': '*', 'match': MATCHABLE, 'family': 'intersect(match):unique-keys', 'unique': True, 'how': 'intersect'})
         out.append({'op': 'intersection', 'fid': f, 'db': dbj, 'column': rng.choice(['x,foo', 'zz', 'name']), 'match': rng.choice([['foo'], ['name', 'bar'], MATCHABLE]),
                     'family': 'malformed', 'unique': True, 'how': 'get_intersection'})
         if f % 4 == 0:
